@@ -10,11 +10,11 @@ E3 = "E3-schedule-exploration"
 # property -> (engine, level text, level note, technique, design_ref)
 CHECKS = {
     "C01": (E1,
-            "Kernel-level analysis frequencies include |sin w| < 1e-4 (3e-5, pi-3e-5, 1e-8). Windows include one with interior zeros and negative taps; low-relative-scatter records; two realistic-size bins per backend/mode/order (K=300xL=4096, K=33000xL=40). Every record over the alphabet {-2,0,1}^L (L<=4 quick, <=5 cross / <=7 auto thorough), every ordered start sequence on a 7-sample record, all windows/frequencies/orders in the stated lattice are run through the real Numba, NumPy and CUDA-simulator kernels and compared with a longdouble evaluation of the defining sum; no sampling.",
+            "Every kernel call is followed by a byte comparison of its input arrays (kernels only read them); one NumPy-backend bin with K*L > 2^25 (853 x 40000, line at the analysis frequency, frequency-aware rounding allowance). Kernel-level analysis frequencies include |sin w| < 1e-4 (3e-5, pi-3e-5, 1e-8). Windows include one with interior zeros and negative taps; low-relative-scatter records; two realistic-size bins per backend/mode/order (K=300xL=4096, K=33000xL=40). Every record over the alphabet {-2,0,1}^L (L<=4 quick, <=5 cross / <=7 auto thorough), every ordered start sequence on a 7-sample record, all windows/frequencies/orders in the stated lattice are run through the real Numba, NumPy and CUDA-simulator kernels and compared with a longdouble evaluation of the defining sum; no sampling.",
             "small-scope: alphabet {-2,0,1}, identifiable records, L<=7 (long L only in thorough part C); CUDA = core_cuda.py under numba's simulator; tolerance is a derived rounding bound of the recurrence",
             "bounded exhaustive input enumeration against a reference model (explicit-state, no sampling)", "DESIGN.md §4 C01"),
     "C02": (E1,
-            "Analyzer route with the scheduler named by string and passed as a function, also with Lmin/bmin configured under LPSD; sampling rates 3e-8 and 4e7 on part of the lattice. Plus process-level ordered-pair call histories (fork->A->fork->B vs pristine) over a 29-configuration set, analyzer plan == direct plan, and spot configurations at N=60000/100000. Full product of a configuration lattice (every N in 8..40/64 plus large N, 8 overlaps incl. 0.9/0.99, all clamp-activating bmin/Lmin, 7-8 Jdes, 5 Kdes, 3-4 fs) for all four schedulers, each called directly and through SpectrumAnalyzer.plan(); every bin of every plan is checked against the segmentation predicates.",
+            "Analyzer plan for N=2^23+5 (bins with more than 2^22 segments). Analyzer route with the scheduler named by string and passed as a function, also with Lmin/bmin configured under LPSD; sampling rates 3e-8 and 4e7 on part of the lattice. Plus process-level ordered-pair call histories (fork->A->fork->B vs pristine) over a 29-configuration set, analyzer plan == direct plan, and spot configurations at N=60000/100000. Full product of a configuration lattice (every N in 8..40/64 plus large N, 8 overlaps incl. 0.9/0.99, all clamp-activating bmin/Lmin, 7-8 Jdes, 5 Kdes, 3-4 fs) for all four schedulers, each called directly and through SpectrumAnalyzer.plan(); every bin of every plan is checked against the segmentation predicates.",
             "configurations off the lattice are not covered; admissibility filter is the property's quantifier",
             "bounded exhaustive configuration enumeration with per-state invariants", "DESIGN.md §4 C02"),
     "C03": (E1,
@@ -26,11 +26,11 @@ CHECKS = {
             "'no clamp active' decided by a reference procedure written from the documented targets; ties accepted either way",
             "bounded exhaustive configuration enumeration with per-state invariants", "DESIGN.md §4 C04"),
     "C05": (E1,
-            "Sub-lattice with fs=3e-8 and 4e7; four 140000-sample analyses (segment lengths beyond 2^16, frequencies below 1e-5 fs) on records with strong low-bin content. Plus off-grid single-bin requests (non-dividing fres, off-plan L), process-level ordered-pair call histories, a 1613-bin plan and an N=20000 default-parameter analysis. Full product of an analysis-configuration lattice (N, 4 schedulers, 6 window specifications incl. numpy/scipy Kaiser callables and a custom callable, 4 orders, Numba/NumPy (+CUDA-simulator) backends, 3 overlaps, 2 (Jdes,Kdes), bmin, Lmin, auto/cross, 2-3 records): every bin of every result is compared with a longdouble reference estimator evaluated at the plan's own f, L, D with an independently built window; every bin is re-requested as a single-bin analysis (L= and fres=); every pair of band edges from a stated set is checked against the in-band slice.",
+            "Band restriction for a user-supplied scheduler with an unsorted grid. Sub-lattice with fs=3e-8 and 4e7; four 140000-sample analyses (segment lengths beyond 2^16, frequencies below 1e-5 fs) on records with strong low-bin content. Plus off-grid single-bin requests (non-dividing fres, off-plan L), process-level ordered-pair call histories, a 1613-bin plan and an N=20000 default-parameter analysis. Full product of an analysis-configuration lattice (N, 4 schedulers, 6 window specifications incl. numpy/scipy Kaiser callables and a custom callable, 4 orders, Numba/NumPy (+CUDA-simulator) backends, 3 overlaps, 2 (Jdes,Kdes), bmin, Lmin, auto/cross, 2-3 records): every bin of every result is compared with a longdouble reference estimator evaluated at the plan's own f, L, D with an independently built window; every bin is re-requested as a single-bin analysis (L= and fres=); every pair of band edges from a stated set is checked against the in-band slice.",
             "small N (16..64, thorough to 257); reference Kaiser window from the I0 definition with the published alpha(psll) polynomial",
             "bounded exhaustive configuration/input enumeration against a reference model", "DESIGN.md §4 C05"),
     "C06": (E1,
-            "Sinusoid calibration over the full lattice L=16..128 (every integer) x bin position x phase x amplitude x psll x fs x order x N through compute_single_bin; scaling and fs-relabelling laws on an analysis lattice with 4 scale factors on x, y, both and 5 relabelling factors.",
+            "One calibration case on the NumPy backend with 1535 x 65536 gathered samples; L=70001. Sinusoid calibration over the full lattice L=16..128 (every integer) x bin position x phase x amplitude x psll x fs x order x N through compute_single_bin; scaling and fs-relabelling laws on an analysis lattice with 4 scale factors on x, y, both and 5 relabelling factors.",
             "tolerance 2r+r^2 (+rounding) with r the side-lobe level that C12 establishes; scaling laws to derived rounding tolerance",
             "bounded exhaustive configuration/input enumeration with an analytic oracle", "DESIGN.md §4 C06"),
     "C07": (E1,
@@ -46,27 +46,27 @@ CHECKS = {
             "identities demanded to 1e-9 relative plus derived rounding tolerance; bins below 1e6x rounding are excluded from equalities",
             "bounded exhaustive input enumeration with algebraic invariants", "DESIGN.md §4 C09"),
     "C10": (E1,
-            "Directly constructed results over the full grid coherence(11) x n(8) x |XX|(3) x |YY|(3) x arg XY(4) x fs(2) x S2(2): every deviation and normalised error equals the reference Bendat-Piersol expression, deviation = estimate x error, dev*sqrt(n) constant, phase-error bounds and limit, degree form; analyzer results use the number of segment starts. The ensemble sentence is not claimed.",
+            "The same relations on results that were plotted with 3-sigma error bands first. Directly constructed results over the full grid coherence(11) x n(8) x |XX|(3) x |YY|(3) x arg XY(4) x fs(2) x S2(2): every deviation and normalised error equals the reference Bendat-Piersol expression, deviation = estimate x error, dev*sqrt(n) constant, phase-error bounds and limit, degree form; analyzer results use the number of segment starts. The ensemble sentence is not claimed.",
             "statistical last sentence of the property is outside the family (DESIGN.md §6)",
             "bounded exhaustive grid enumeration against reference formulas", "DESIGN.md §4 C10"),
     "C11": (E1,
-            "Analysis lattice (3 N x 4 schedulers x 3 windows x 4 orders x 2 backends x 3 overlaps x 3 (Jdes,Kdes) x auto/cross x 2 records): per bin XY_M2 equals the reference population variance of the per-segment cross products, var = M2/K, dev = sqrt, spectral units factor 2/(fs sum w^2), zero for single segments, non-negative, inapplicable one None; constructed-result grid.",
+            "Constructed results in extreme units and after plot calls with error bands. Analysis lattice (3 N x 4 schedulers x 3 windows x 4 orders x 2 backends x 3 overlaps x 3 (Jdes,Kdes) x auto/cross x 2 records): per bin XY_M2 equals the reference population variance of the per-segment cross products, var = M2/K, dev = sqrt, spectral units factor 2/(fs sum w^2), zero for single segments, non-negative, inapplicable one None; constructed-result grid.",
             "statistical last sentence not claimed (DESIGN.md §6)",
             "bounded exhaustive configuration enumeration against a reference model", "DESIGN.md §4 C11"),
     "C12": (E1,
-            "Odd segment lengths 65/129/251 in the quick tier. P in 40..200 step 20 x L in 64..256 (step 8 quick, every integer + 512/1024/4096 thorough) x 3 line positions x 2 phases x every quarter-bin analysis offset beyond the main lobe up to DC and Nyquist, through compute_single_bin: single complex line via the cos/sin channel pair (threshold P-1 dB) and the real sinusoid (two lines, P-7.5 dB).",
+            "L=2^18 with a structured offset set (P=195, 200). Odd segment lengths 65/129/251 in the quick tier. P in 40..200 step 20 x L in 64..256 (step 8 quick, every integer + 512/1024/4096 thorough) x 3 line positions x 2 phases x every quarter-bin analysis offset beyond the main lobe up to DC and Nyquist, through compute_single_bin: single complex line via the cos/sin channel pair (threshold P-1 dB) and the real sinusoid (two lines, P-7.5 dB).",
             "offsets on a quarter-bin grid; float64 dynamic range margin reported per P",
             "bounded exhaustive configuration enumeration with an analytic threshold", "DESIGN.md §4 C12"),
     "C13": (E1,
-            "Containers include object-dtype arrays and lists with None. N=8: all 255 position subsets x 4 non-finite kinds x channel choice x 8 containers (+5 one-channel containers): result equals the zero-filled record's and the caller's bytes are unchanged; containers x 5 dtypes x shapes give the float64 result; every x in {-2,0,1}^6(+2) x 10 partners x scales 1e-150/1/1e150 x 4 orders x auto/cross x full/single-bin: all densities, coherences, transfer functions finite, error bars finite where coh>0.",
+            "Magnitude alphabet includes 1e-157 (subnormal mean squares); untouched-input part with tiling segmentations. Containers include object-dtype arrays and lists with None. N=8: all 255 position subsets x 4 non-finite kinds x channel choice x 8 containers (+5 one-channel containers): result equals the zero-filled record's and the caller's bytes are unchanged; containers x 5 dtypes x shapes give the float64 result; every x in {-2,0,1}^6(+2) x 10 partners x scales 1e-150/1/1e150 x 4 orders x auto/cross x full/single-bin: all densities, coherences, transfer functions finite, error bars finite where coh>0.",
             "magnitude alphabet keeps the densities representable; cf_db=-inf at cf=0 is by definition",
             "bounded exhaustive input enumeration with differential and finiteness oracles", "DESIGN.md §4 C13"),
     "C14": (E3,
-            "Parallel region captured through any number of compiled helper levels; a schedule's outcome is the returned value and the final contents of all array arguments; a worker process that dies inside the library is reported as a violation. Pair histories include order=1. Schedules: all six prange kernels and all six CUDA kernels are lifted from the working tree's source (one generator per loop iteration / CUDA thread, scheduling points at every access to a shared-mutable array) and every interleaving is enumerated: K=2 and K=3 without a preemption bound (34650 schedules per kernel at K=3), repeated starts with bound 2; one outcome, bitwise equal to the in-order run; every output slot written once. Conformance: compiled kernels under threads 1..16 x 7 chunk sizes x 7 segment counts x repetitions are bitwise equal to one thread and equal to the lifted in-order run. Histories: BFS over plan/compute/compute_single_bin sequences on one analyzer (depth 4 merged, depth 3 unmerged) and over every order of first attribute access on a result (depth 2; 3 thorough).",
+            "Separate processes with different configured thread counts and their own kernel caches (K up to 2^18+3); plot calls among the result operations; band+scheduler pair configurations. Parallel region captured through any number of compiled helper levels; a schedule's outcome is the returned value and the final contents of all array arguments; a worker process that dies inside the library is reported as a violation. Pair histories include order=1. Schedules: all six prange kernels and all six CUDA kernels are lifted from the working tree's source (one generator per loop iteration / CUDA thread, scheduling points at every access to a shared-mutable array) and every interleaving is enumerated: K=2 and K=3 without a preemption bound (34650 schedules per kernel at K=3), repeated starts with bound 2; one outcome, bitwise equal to the in-order run; every output slot written once. Conformance: compiled kernels under threads 1..16 x 7 chunk sizes x 7 segment counts x repetitions are bitwise equal to one thread and equal to the lifted in-order run. Histories: BFS over plan/compute/compute_single_bin sequences on one analyzer (depth 4 merged, depth 3 unmerged) and over every order of first attribute access on a result (depth 2; 3 thorough).",
             "each iteration its own thread (superset of every worker/chunk assignment); native thread timing not controlled, bound to the model by the conformance sweep; CUDA device scheduling not covered",
             "stateless schedule exploration (preemption-bounded DFS over the lifted kernel source) + explicit-state BFS over operation histories", "DESIGN.md §3.3, §4 C14"),
     "C15": (E1,
-            "q=1..3 (4 thorough) inputs on N=600 records: every coefficient vector over {-1,2,.5}^q as an exact static combination and with an independent record added, every permutation, every invertible 2x2 mixing matrix over {-1,0,1,2} (fixed set of 12 for q>=3), numeric and analytic solvers, q=1 delays {0,1,3} x gain sign: range, zero residual, invariances, solver agreement, SISO = sqrt(Gyy(1-coh)) on every bin with K>q.",
+            "Inputs as int64/int32/float32/lists/mixed/read-only give the float64 residual. q=1..3 (4 thorough) inputs on N=600 records: every coefficient vector over {-1,2,.5}^q as an exact static combination and with an independent record added, every permutation, every invertible 2x2 mixing matrix over {-1,0,1,2} (fixed set of 12 for q>=3), numeric and analytic solvers, q=1 delays {0,1,3} x gain sign: range, zero residual, invariances, solver agreement, SISO = sqrt(Gyy(1-coh)) on every bin with K>q.",
             "power-level tolerance 1e-7*S00 (observed 5e-15); records are the identifiable set",
             "bounded exhaustive configuration enumeration with differential and algebraic oracles", "DESIGN.md §4 C15"),
     "C16": (E1,
@@ -74,7 +74,7 @@ CHECKS = {
             "interior = whole stencil inside the record; tolerance scaled by the stencil's Lebesgue constant",
             "bounded exhaustive configuration/input enumeration against an exact-arithmetic reference", "DESIGN.md §4 C16"),
     "C17": (E2,
-            "BFS over all histories of get_series(n), n in {0,1,2,3,5}, total <= 12 (20 thorough), on 13 generator configurations x 3 seeds, objects rebuilt from the history, states merged by a hash of the complete object state; plus the same search without merging for total <= 6 (9). Every block equals the corresponding slice of one long request from a twin (exact), and the state after t samples is chunking independent. get_sample runs across the 4096 buffer boundary; the filter cascade against scipy's direct-form sections on every input over {-2,0,1}^n (n<=6) and every split point.",
+            "One request of 2^24+1000 samples. BFS over all histories of get_series(n), n in {0,1,2,3,5}, total <= 12 (20 thorough), on 13 generator configurations x 3 seeds, objects rebuilt from the history, states merged by a hash of the complete object state; plus the same search without merging for total <= 6 (9). Every block equals the corresponding slice of one long request from a twin (exact), and the state after t samples is chunking independent. get_sample runs across the 4096 buffer boundary; the filter cascade against scipy's direct-form sections on every input over {-2,0,1}^n (n<=6) and every split point.",
             "seeds/parameters outside the stated set not covered; equal state hash => equal futures (hash covers vars() recursively)",
             "explicit-state BFS over operation histories on the real objects", "DESIGN.md §3.2, §4 C17"),
     "C18": (E1,
@@ -82,11 +82,11 @@ CHECKS = {
             "corner regions (within a factor 3 of the effective corners) excluded as the property says 'between' the corners",
             "bounded exhaustive configuration/input enumeration with analytic oracles", "DESIGN.md §4 C18"),
     "C19": (E1,
-            "RMS integration on grids in nano- and mega-hertz units; get_rms for fs=4e-7. polynomial_detrend on every record over {-2,0,1}^n (n<=7; 8 thorough) and identifiable records of 30/200 samples x orders 0..5: orthogonality to all monomials of degree<=p, polynomials to zero, idempotence; df_detrend option product; integral_rms on uniform/log/irregular grids of 2..6 (8) points x every ASD over {0,1,2.5}^n x every band over grid points, midpoints, +-inf: trapezoid value, additivity at grid-point splits, monotonicity under nesting; get_rms incl. reversed bands.",
+            "Chained frame with colliding column names. RMS integration on grids in nano- and mega-hertz units; get_rms for fs=4e-7. polynomial_detrend on every record over {-2,0,1}^n (n<=7; 8 thorough) and identifiable records of 30/200 samples x orders 0..5: orthogonality to all monomials of degree<=p, polynomials to zero, idempotence; df_detrend option product; integral_rms on uniform/log/irregular grids of 2..6 (8) points x every ASD over {0,1,2.5}^n x every band over grid points, midpoints, +-inf: trapezoid value, additivity at grid-point splits, monotonicity under nesting; get_rms incl. reversed bands.",
             "the 'few percent of the time-domain RMS for broadband data' clause is statistical and not claimed (DESIGN.md §6)",
             "bounded exhaustive input enumeration against a reference model", "DESIGN.md §4 C19"),
     "C20": (E2,
-            "E1: 8 results from real analyses (auto/cross x ragged, equal-K, single-bin, Lmin=N) + constructed results: every public attribute against the documented function of the raw fields or None; get_measurement at grid, fractional, outside points, scalar/array, for every array-valued name; to_dataframe columns/index/values. E2: BFS over histories (depth 2; 3 thorough) over the full alphabet {read any attribute, 3 interpolated reads, to_dataframe, copy, deepcopy, pickle protocols 2-5} on objects rebuilt from the history: values returned and every attribute read afterwards equal a fresh result's (bitwise), cached entries unchanged, raw data unchanged.",
+            "Plot calls are operations of the history explorer; results with channels 160 decades apart and in nano-/mega-hertz units. E1: 8 results from real analyses (auto/cross x ragged, equal-K, single-bin, Lmin=N) + constructed results: every public attribute against the documented function of the raw fields or None; get_measurement at grid, fractional, outside points, scalar/array, for every array-valued name; to_dataframe columns/index/values. E2: BFS over histories (depth 2; 3 thorough) over the full alphabet {read any attribute, 3 interpolated reads, to_dataframe, copy, deepcopy, pickle protocols 2-5} on objects rebuilt from the history: values returned and every attribute read afterwards equal a fresh result's (bitwise), cached entries unchanged, raw data unchanged.",
             "fresh value = first read on a newly constructed result with the same raw fields",
             "explicit-state BFS over operation histories + bounded exhaustive relation table", "DESIGN.md §3.2, §4 C20"),
 }
